@@ -53,7 +53,7 @@ type txnAnalysis struct {
 
 // retClass classifies what a return statement returns in its failure-relevant result.
 type retClass struct {
-	fail    tri  // triYes: certainly a failure (non-nil error / false); triNo: success; unknown
+	fail    tri // triYes: certainly a failure (non-nil error / false); triNo: success; unknown
 	viaCall *ast.CallExpr
 	flush   bool // the result is directly the result of (*encoderState).Flush
 }
@@ -290,6 +290,10 @@ func (a *txnAnalysis) applyCall(call *ast.CallExpr, s txnS) []callOutcome {
 			csig := callee.Type().(*types.Signature)
 			if csig.Recv() != nil {
 				if a.mode == modeCoder && a.eff.isFlatType(csig.Recv().Type()) && loc == nil {
+					if a.p.transactionalHelper(callee) {
+						// the helper commits only on its success paths (checked on its own body)
+						return []callOutcome{{a.applySummary(callee, call, s), triYes}, {s, triNo}}
+					}
 					return []callOutcome{{a.applySummary(callee, call, s), triUnknown}}
 				}
 				if a.eff.recvMut[callee] {
@@ -619,7 +623,16 @@ func (a *txnAnalysis) doReturn(r *ast.ReturnStmt, s txnS) {
 				s = a.callsMerged(arg, s)
 			}
 			for _, o := range a.applyCall(call, s) {
-				a.onReturn(r, o.s, retClass{fail: triUnknown, viaCall: call})
+				rc := retClass{fail: triUnknown, viaCall: call}
+				if csig, ok := a.info.TypeOf(call.Fun).(*types.Signature); ok && csig.Results().Len() == nres && isErrorType(csig.Results().At(nres-1).Type()) {
+					switch o.err {
+					case triYes:
+						rc.fail = triNo
+					case triNo:
+						rc.fail = triYes
+					}
+				}
+				a.onReturn(r, o.s, rc)
 			}
 			return
 		}
@@ -633,7 +646,7 @@ func (a *txnAnalysis) doReturn(r *ast.ReturnStmt, s txnS) {
 			s = a.callsMerged(arg, s)
 		}
 		callee := Callee(a.info, call)
-		flush := callee != nil && QualName(callee) == "jsontext.(*encoderState).Flush"
+		flush := callee != nil && a.p.deliveryFuncs()[callee]
 		for _, o := range a.applyCall(call, s) {
 			rc := retClass{fail: triUnknown, viaCall: call, flush: flush}
 			switch o.err {
@@ -747,4 +760,50 @@ func (a *txnAnalysis) run(entry txnS) {
 
 func (s txnS) String() string {
 	return fmt.Sprintf("{mut=%v need=%d valid=%d}", s.mut, s.need, s.valid)
+}
+
+// transactionalHelper reports whether fn is an unexported method of a coder
+// state type that returns an error as its last result and whose own body
+// never mutates the abstract coder state on a path to a non-nil error return
+// (the TXN-2 discipline, checked on the helper itself). Calls to such a helper
+// have two outcomes: success with the helper's effects, failure with none.
+func (p *Program) transactionalHelper(fn *types.Func) bool {
+	if p.txnHelper == nil {
+		p.txnHelper = map[*types.Func]bool{}
+	}
+	if r, ok := p.txnHelper[fn]; ok {
+		return r
+	}
+	p.txnHelper[fn] = false // recursion guard
+	f := p.FuncOf(fn)
+	if f == nil || f.Body() == nil || f.Decl == nil || ast.IsExported(fn.Name()) {
+		return false
+	}
+	sig := fn.Type().(*types.Signature)
+	if sig.Results().Len() == 0 || !isErrorType(sig.Results().At(sig.Results().Len()-1).Type()) {
+		return false
+	}
+	// only helpers that do mutate are interesting
+	mutates := false
+	abs := abstractLocs(p)
+	for loc := range p.Effects().writes[fn] {
+		if abs(loc) {
+			mutates = true
+		}
+	}
+	if !mutates {
+		return false
+	}
+	a := newTxnAnalysis(p, f, modeCoder)
+	a.abstract = abs
+	ok, nret := true, 0
+	a.onReturn = func(r *ast.ReturnStmt, s txnS, rc retClass) {
+		nret++
+		if s.mut && rc.fail != triNo && !rc.flush {
+			ok = false
+		}
+	}
+	a.run(txnS{})
+	p.txnHelper[fn] = ok && nret > 0
+	return p.txnHelper[fn]
 }
